@@ -5,7 +5,6 @@ import hashlib
 import asyncio
 import time
 import typing
-import random
 from asyncio.protocols import DatagramProtocol
 from asyncio.transports import DatagramTransport
 
@@ -115,8 +114,8 @@ class KademliaRPC:
         else:
             # how many pages of (up to K) peers we have for the blob
             response[PAGE_KEY] = (len(peers) + constants.K - 1) // constants.K
-        if len(peers) > constants.K:
-            random.Random(self.protocol.node_id).shuffle(peers)
+        # the pages are slices of the arrival order, which a store that arrives between two page requests only appends
+        # to: reshuffling the grown list made the next page overlap the previous ones and skip peers not yet sent
         if page * constants.K < len(peers):
             response[key] = peers[page * constants.K:page * constants.K + constants.K]
         return response
